@@ -50,6 +50,7 @@ type hier struct {
 	pi    bool        // direct issuer is a dedicated precertificate signing certificate (CT EKU)
 	piAKI bool        // ... that carries an authority key identifier
 	caEKU bool        // the (ordinary) direct issuer carries an extended key usage extension (serverAuth, clientAuth): not a pre-issuer
+	caCT    bool      // the CA above the precert signing certificate lists the CT usage too (it is a CA that may also sign precertificates itself): still the final issuer
 	sameSKI bool      // the final issuer carries a subject key identifier that other CAs (with other keys) carry too
 	piEKU int         // the signing certificate's extended key usages: 0 = {CT}; 1 = {CT, serverAuth}; 2 = {serverAuth, CT}; 3 = {clientAuth, CT, serverAuth}
 	cas   []*pki.Cert // cas[0] = direct issuer ... cas[n] = root
@@ -65,6 +66,9 @@ func (h *hier) label() string {
 			s += fmt.Sprintf(" preissuer-ekus#%d", h.piEKU)
 		}
 	}
+	if h.caCT {
+		s += " final-issuer-lists-the-CT-usage-too"
+	}
 	if h.sameSKI {
 		s += " final-issuer-shares-its-key-id-with-other-CAs"
 	}
@@ -77,9 +81,11 @@ func (h *hier) label() string {
 func (h *hier) root() *pki.Cert { return h.cas[h.n] }
 
 func buildHier(n, ik int, pi, piAKI, caEKU bool, piEKU int) *hier {
+	caCT := piEKU >= 1000
+	piEKU %= 1000
 	sameSKI := piEKU >= 100
 	piEKU %= 100
-	h := &hier{n: n, ik: ik, pi: pi, piAKI: piAKI, caEKU: caEKU, piEKU: piEKU, sameSKI: sameSKI, cas: make([]*pki.Cert, n+1)}
+	h := &hier{n: n, ik: ik, pi: pi, piAKI: piAKI, caEKU: caEKU, piEKU: piEKU, sameSKI: sameSKI, caCT: caCT, cas: make([]*pki.Cert, n+1)}
 	tag := fmt.Sprintf("n%d-%s", n, kinds[ik])
 	if pi {
 		tag += fmt.Sprintf("-pi%v", piAKI)
@@ -93,6 +99,9 @@ func buildHier(n, ik int, pi, piAKI, caEKU bool, piEKU int) *hier {
 	if sameSKI {
 		tag += "-sameski"
 	}
+	if caCT {
+		tag += "-cact"
+	}
 	h.cas[n] = pki.NewRoot("C01 root "+tag, caKey(ik, n+1))
 	for d := n; d >= 1; d-- {
 		o := pki.CAOpts{}
@@ -104,6 +113,9 @@ func buildHier(n, ik int, pi, piAKI, caEKU bool, piEKU int) *hier {
 		}
 		if d == 1 && caEKU {
 			o.EKUs = [][]int{pki.OIDEKUServerAuth, pki.OIDEKUClientAuth}
+		}
+		if h.caCT && d == 2 && pi {
+			o.EKUs = [][]int{pki.OIDEKUServerAuth, pki.OIDEKUCT}
 		}
 		if h.sameSKI && ((d == 1 && !pi) || (d == 2 && pi)) {
 			o.SKI = []byte("one key id, many CAs")
@@ -487,6 +499,16 @@ func newWorld() *world {
 		}
 		hp := w.hierX(2, ik, true, true, false, 100)
 		add(kPrePI, hp, (ik+2)%4, layout{false, 1, 0, 1}, "utc")
+	}
+	// the CA that issued the precert signing certificate lists the CT usage as well: it is still the final issuer
+	for ik := 0; ik < 4; ik++ {
+		for _, piAKI := range both {
+			for n := 2; n <= 3; n++ {
+				h := w.hierX(n, ik, true, piAKI, false, 1000)
+				add(kPrePI, h, (ik+1)%4, layout{true, 1, 0, 2}, "utc")
+				add(kPrePI, h, (ik+3)%4, layout{false, 0, 0, 0}, "utc")
+			}
+		}
 	}
 	// a trusted root submitted on its own: the validated path has length one, the chain part of the extra data is empty
 	for ik := 0; ik < 5; ik++ {
